@@ -101,7 +101,8 @@ class Gen:
         self.language_order = list(language_order)
         self.lld = dict(language_locale_dict)
         abbr = [n for i in timezone_info_list[1:] for n, _ in i["timezones"]]
-        self.tzs = list(pytz.common_timezones) + abbr + ["+0530", "-1200", "UTC+14", "UTC-09:30", "GMT+3", "UTC+05:45",
+        # every name pytz resolves (aliases such as Asia/Calcutta, Japan, GB included), not only the "common" ones
+        self.tzs = list(pytz.all_timezones) + abbr + ["+0530", "-1200", "UTC+14", "UTC-09:30", "GMT+3", "UTC+05:45",
                                                          "local", "Local"]
         self.to_tzs = self.tzs[:-2] + ["UTC"]
         self.pytz = pytz
